@@ -25,7 +25,7 @@ ASSUMPTIONS = ['tolerance 1e-6 relative with a 1e-9 absolute floor near zero']
 REQUIRED = ['chained_partial_reads', 'poly_through_channel', 'decoy_objects', 'repeated_scale_calls', 'through_channel_chained', 'input_dtype_independence_calls', 'single_precision_points', 'rtd_cross_object_points', 'purity_calls', 'rtd_points', 'rtd_branch_point_sets', 'rtd_quartic_points', 'thermistor_points', 'strain_points', 'poly_points', 'table_points', 'through_channel',
             'branch:rtd:2-wire', 'branch:rtd:3-wire', 'branch:rtd:4-wire', 'branch:thermistor:current', 'branch:thermistor:voltage'] + \
            ['branch:strain:%d' % c for c in (10183, 10184, 10185, 10188, 10189, 10271, 10272)]
-N = {'quick': 9600, 'thorough': 3000000}
+N = {'quick': 9600, 'thorough': 1500000}
 REL, ABS = 1e-6, 1e-9
 
 
